@@ -23,6 +23,36 @@ CLAIMS = {
                 text="Each container is driven through operation sequences whose KINDS are enumerated as separate solver queries while element values and insertion positions are solver variables; after every operation the container is compared "
                      "(size, front/back, full forward and reverse traversal, results) with an array model kept by the harness; a Counted element type with a ghost live-instance map decides 'constructed and destroyed exactly once'.",
                 note="Bounds per container in the evidence (gdeque<T,2>: 3-element two-block prefix + all pairs of 11 operation kinds in the quick tier; all triples in the thorough tier). GALOIS_FORCE_STANDALONE routes the block allocator to malloc (the Galois heaps are C09)."),
+    "C09": dict(tech=TECH, ref="DESIGN.md section 3 C09 and section 7",
+                text="one-step contracts from an arbitrary valid pre-state (representation invariant assumed, checked to hold initially) for BumpHeap (both allocate overloads), BumpWithMallocHeap (+clear), BlockHeap, FreeListHeap/SelfLockFreeListHeap (alloc/free histories), AddHeader, Pow_2 size classes (all sizes <= 65536) and the real PerBackend::allocOffset/deallocOffset (every 3-operation history + split-path histories): results non-null, aligned, inside the block, large enough, disjoint from everything live.",
+                note="Source heap scaled to AllocSize=128 bytes (the 2 MB page is only a capacity); PerThreadStorage over 1024 bytes; page pool, NUMA placement, OwnerTaggedHeap (does not compile), SizedHeapFactory map lookup and all multi-thread histories are outside."),
+    "C12": dict(tech=TECH, ref="DESIGN.md section 3 C12 and section 7",
+                text="binary format only: symbolic graphs (nodes 0..3, edges 0..3, edge data 0/4/8 bytes, versions 1 and 2, odd and even edge counts) built by the real FileGraph::fromArrays / FileGraphWriter, written through the real toFile/write path into an in-memory file model, re-read by FileGraph::fromFile/fromMem and enumerated: same nodes, edges, data; every section stays inside the block sized by rawBlockSize (CBMC bounds checks); sub-range views; Endian.h.",
+                note="mmap/open/write/fstat are modelled by a one-file in-memory file system (unit stubs). NOT covered (not applicable to this technique, see DESIGN): graph-convert / graph-remap / dist-graph-convert text parsers and transforming conversions (iostream main() programs), partFromFile (out of memory), OCFileGraph/OfflineGraph/BufferedGraph readers."),
+    "C15": dict(tech=TECH, ref="DESIGN.md section 3 C15 and section 7",
+                text="Reducible family (sum/max/min/logical/user merge, += and -=, int32/uint64/double, reset, second reduce) over the real PerThreadStorage with 1..4 modelled threads and a symbolic assignment of updates to threads; atomicMin/Max/Add/Subtract and plain variants; DynamicBitSet set/reset/test/count and reset(begin,end) for every begin<=end with word-boundary masks against a per-bit model; sequential union-find.",
+                note="Updates of a Reducible are thread-local, so the assignment of updates to threads (not their interleaving) is the quantifier; thread pool and page allocator are harness fakes (C15_env.h). Concurrent set/atomic/union-find interleavings, InsertBag, PerThreadContainer, DReducible (MPI), floating-point addition order are outside."),
+    "C17": dict(tech=TECH, ref="DESIGN.md section 3 C17 and section 7",
+                text="serialisation only: gDeserialize(gSerialize(x)) == x, read offset ends exactly at the buffer size, at every buffer alignment (pad 0..7 selects both branches of gDeserializeLinearSeq) for scalars, pairs, tuples (read side), PODResizeableArray, vectors of trivially and non-trivially copyable elements, custom-serialisable structs, gdeque, DynamicBitSet, nested buffers, concatenations, strings.",
+                note="Known finding (not repaired, listed in known_findings.json): std::string with an embedded NUL. NOT covered (not applicable to this technique): MPI transport, communication thread, multi-sender interleavings, host barriers (FFI / I/O; libdist is not built in the baseline); std::deque serialisation does not compile."),
+    "C18": dict(tech=TECH, ref="DESIGN.md section 3 C18 and section 7",
+                text="fragment: the per-field reduction algebra. Every sync-structure macro family of SyncStructures.h (add, min, max, set, arrays, pair-wise add/avg, edges, bitvector status) instantiated on a harness NodeData and driven by an abstract sync (extract at written mirrors, reduce at master in symbolic order, reset, broadcast) over <=3 proxies: master = reduction of its old value and exactly the written contributions, all proxies agree, a second sync without writes changes nothing; get_data_mode selection arithmetic.",
+                note="The Gluon orchestration itself (GluonSubstrate.h: which halves a partition policy may skip, wire encode/decode, asynchronous mode, MPI) cannot be encoded and is not claimed."),
+    "C19": dict(tech=TECH, ref="DESIGN.md section 3 C19 and section 7",
+                text="fragment: partition policy kernels. ReadMasterAssignment::retrieveMaster over a symbolic contiguous gid2host partition (every gid exactly one master < H, H<=4); getEdgeOwner of NoCommunication, GenericHVC, GenericCVC, GenericCVCColumnFlip (owner < H, grid row/column as documented); factorizeHosts (rows*cols == H, H<=16).",
+                note="The partitioner itself (NewGeneric.h / DistributedGraph.h: edges shipped over MPI, CSR construction from files, id maps, mirror lists) cannot be encoded and is not claimed; sqrt is a table of correctly rounded values for 0..16."),
+    "C05": dict(tech=TECH_CONC, ref="DESIGN.md section 3 C05 and section 7",
+                text="the real wait() bodies of CountingBarrier, MCSBarrier, DisseminationBarrier (state built by the real constructors/reinit) run as step machines under a solver-chosen schedule: no thread returns from its k-th wait before every participant entered it, every thread returns (deadlock probe + step-bound assertion), reuse over 2-3 phases, reinit to a different participant count between regions, T=1.",
+                note="T=2 in the quick tier, T=3 and the plain-accesses-visible variant in the thorough tier; SC values only. TopoBarrier, SimpleBarrier (mutex/condvar) and PthreadBarrier are not yet encoded."),
+    "C06": dict(tech=TECH_CONC, ref="DESIGN.md section 3 C06 and section 7",
+                text="SimpleLock lock()/try_lock()/unlock() under all schedules of T=2 (T=3 thorough) x 2 acquisitions: at most one holder, every requester admitted, no deadlock; the release->acquire edge is a happens-before edge for a plain payload under ghost vector clocks that honour the memory orders found in the IR (weakening unlock() to relaxed is reported).",
+                note="PtrLock, PaddedLock, ThreadRWlock and the other promised edges (lockable hand-over is checked in C02; barrier, parallel-region entry/return, worklist push/pop) are not yet encoded; starvation freedom is not decidable by a bounded check."),
+    "C02": dict(tech=TECH_CONC, ref="DESIGN.md section 3 C02 and section 7",
+                text="ownership protocol over the real Context.cpp / PtrLock (tryAcquire, acquire, signalConflict via the longjmp model, commitIteration, cancelIteration) with T=2 contexts (T=3 thorough), 2 lockables, 2 acquire() calls each with symbolic target and flag: never two owners (ghost owner stamps), ALREADY_OWNER only for the true owner, commit/abort frees everything, nothing left owned, hand-over of object data is happens-before; flag semantics (UNPROTECTED/PREVIOUS never touch the owner word).",
+                note="The serial-equivalence conclusion for cautious operators is the textbook consequence and is argued, not mechanised; executor-level discard of pushes/allocations on abort belongs to C01's executor obligation."),
+    "C04": dict(tech=TECH_CONC, ref="DESIGN.md section 3 C04 and section 7",
+                text="the real ring (LocalTerminationDetection) and tree (TreeTerminationDetection) detectors inside the loop skeleton of ForEachExecutor::go() with an abstract work ledger: termination is never observed while the pool holds work, a thread holds work or has unreported work (all schedules, T=2; T=3 thorough); once everybody is idle a bounded number of round-robin idle reports announces termination; re-arming with a different thread count.",
+                note="<=2 report rounds per thread, <=3 work units; SC values (the tree detector's volatile tokens are scheduling points but carry no happens-before claim); fairness-based liveness is outside."),
 }
 
 NOT_YET = "check not built yet in this round (planned in DESIGN.md section 3); no claim is made"
